@@ -48,12 +48,16 @@ pub struct Call {
 #[derive(Clone, Debug)]
 pub struct Case {
     n: usize,
+    /// naming scheme of the functions: 0 = f0, f1, .. (map order = index order); k > 0 = names from a pool in which the map
+    /// order differs from the index order and which contains the tid of the artificial sink sub that `Project::normalize` adds
+    names: usize,
     /// position in this list = number in the jump's tid
     jumps: Vec<Call>,
 }
 
-fn fn_name(i: usize) -> String {
-    format!("f{}", i)
+const NAME_POOL: [&str; 7] = ["m", "Artificial Sink Sub", "b", "zz", "FUN_00401000", "a", "k"];
+fn fn_name_in(names: usize, i: usize) -> String {
+    if names == 0 { format!("f{}", i) } else { NAME_POOL[(i + names) % NAME_POOL.len()].to_string() }
 }
 fn jump_name(k: usize, c: &Call) -> String {
     format!("jmp{}_in_f{}", k, c.caller)
@@ -62,7 +66,7 @@ fn jump_name(k: usize, c: &Call) -> String {
 impl Case {
     fn to_json(&self) -> Value {
         json!({
-            "fn": "calls", "n": self.n,
+            "fn": "calls", "n": self.n, "names": self.names,
             "jumps": self.jumps.iter().map(|c| {
                 let (k, t) = match &c.kind {
                     Kind::Internal(j) => ("call", json!(j)),
@@ -91,7 +95,7 @@ impl Case {
                 },
             }
         }).collect()).unwrap_or_default();
-        Case { n, jumps }
+        Case { n, names: v["names"].as_u64().unwrap_or(0) as usize, jumps }
     }
 
     /// the program term, built by hand through the public fields of the IR types
@@ -108,7 +112,7 @@ impl Case {
                     }
                     let ret = if k % 2 == 0 { Some(Tid::new(format!("blk{}_of_f{}", b + 1, f))) } else { None };
                     let term = match &c.kind {
-                        Kind::Internal(j) => Jmp::Call { target: Tid::new(fn_name(*j)), return_: ret },
+                        Kind::Internal(j) => Jmp::Call { target: Tid::new(fn_name_in(self.names, *j)), return_: ret },
                         Kind::Extern(j) => Jmp::Call { target: Tid::new(format!("extern{}", j)), return_: ret },
                         Kind::Indirect => Jmp::CallInd { target: Expression::Const(Bitvector::from_u64(0x1000 + k as u64)), return_: ret },
                         Kind::Branch => Jmp::Branch(Tid::new(format!("blk{}_of_f{}", b, f))),
@@ -122,8 +126,8 @@ impl Case {
                 });
             }
             subs.insert(
-                Tid::new(fn_name(f)),
-                Term { tid: Tid::new(fn_name(f)), term: Sub { name: fn_name(f), blocks, calling_convention: None } },
+                Tid::new(fn_name_in(self.names, f)),
+                Term { tid: Tid::new(fn_name_in(self.names, f)), term: Sub { name: fn_name_in(self.names, f), blocks, calling_convention: None } },
             );
         }
         Term {
@@ -182,7 +186,7 @@ fn check(case: &Case, evaluations: &mut u64) -> Option<Value> {
         let mut out = Vec::new();
         for s in 0..case.n {
             for t in 0..case.n {
-                let tids = find_call_sequences_to_target(&callgraph, &Tid::new(fn_name(s)), &Tid::new(fn_name(t)));
+                let tids = find_call_sequences_to_target(&callgraph, &Tid::new(fn_name_in(case.names, s)), &Tid::new(fn_name_in(case.names, t)));
                 let names: BTreeSet<String> = tids.iter().map(|tid| format!("{}", tid)).collect();
                 // a BTreeSet<Tid> of n distinct tids must show n distinct names (every jump has its own tid)
                 out.push((s, t, names, tids.len()));
@@ -205,7 +209,7 @@ fn check(case: &Case, evaluations: &mut u64) -> Option<Value> {
         let want = expected(case, s, t);
         if names != want || len != want.len() {
             return Some(json!({"input": case.to_json(), "check": "exactly-the-calls-on-paths",
-                "source": fn_name(s), "target": fn_name(t),
+                "source": fn_name_in(case.names, s), "target": fn_name_in(case.names, t),
                 "observed": names.iter().collect::<Vec<_>>(), "expected": want.iter().collect::<Vec<_>>()}));
         }
     }
@@ -223,8 +227,10 @@ fn enumerate(seed: u64, evaluations: &mut u64) -> Option<Value> {
                 per_fn[*a] += 1;
                 Call { caller: *a, block: per_fn[*a] - 1, kind: Kind::Internal(*b) }
             }).collect();
-            if let Some(v) = check(&Case { n, jumps }, evaluations) {
-                return Some(v);
+            for names in [0usize, 3] {
+                if let Some(v) = check(&Case { n, names, jumps: jumps.clone() }, evaluations) {
+                    return Some(v);
+                }
             }
         }
     }
@@ -244,7 +250,8 @@ fn enumerate(seed: u64, evaluations: &mut u64) -> Option<Value> {
             };
             Call { caller, block, kind }
         }).collect();
-        if let Some(v) = check(&Case { n, jumps }, evaluations) {
+        let names = if rng.next() % 2 == 0 { 0 } else { 1 + (rng.next() % 7) as usize };
+        if let Some(v) = check(&Case { n, names, jumps }, evaluations) {
             return Some(v);
         }
     }
